@@ -1,6 +1,7 @@
 from propcfg.common import COMMON_ASSUME
 
 CFG = {
+    "gen_items": ['Tables/behIdx', 'Tables/writeSuffix', 'Tables/readSuffixTable', 'Tables/readNoExtension', 'Tables/layerPathSpecs', 'Tables/pathListSeparator'],
     "bin": "c10",
     "technique": "Lean 4 proof (generated table = CNB table; implicit rule after explicit entries; read/write cycle) + exhaustive correspondence",
     "level_text": "Theorems (all layer directories, environments, variables): the generated layer-path table is the CNB table; in build/launch "
